@@ -44,6 +44,9 @@ def showRes : Res → String
 
 def nats (ws : List String) : Option (List Nat) := ws.mapM String.toNat?
 
+/-- `-` = empty, otherwise nonces separated by `.` -/
+def natList (w : String) : Option (List Nat) := if w == "-" then some [] else (w.splitOn ".").mapM String.toNat?
+
 def parseOp (ws : List String) : Option Op :=
   match ws with
   | "gov" :: rest => (nats rest).map Op.gov
@@ -61,6 +64,9 @@ def parseOp (ws : List String) : Option Op :=
     let kind ← match k with | "os" => some Kind.os | "batch" => some Kind.batch | "call" => some Kind.call | _ => none
     pure (.conf kind (← n.toNat?) (← e.toNat?) (← b.toNat?) (sg == "1"))
   | ["observe", n] => do pure (.observe (← n.toNat?))
+  | ["event", bs, bcs, cs, o] => do
+    let obs ← if o == "=" then some none else if o == "-" then some (some none) else (o.toNat?).map (fun n => some (some n))
+    pure (.event (← natList bs) (← natList bcs) (← natList cs) obs)
   | ["block", dt] => do pure (.block (← dt.toNat?))
   | ["tick", dt] => do pure (.tick (← dt.toNat?))
   | ["valslash", v, num, den] => do pure (.valslash (← v.toNat?) (← num.toNat?) (← den.toNat?))
